@@ -305,3 +305,52 @@ MUTANTS += [
      "edits": [(E, "        self.buffer.extend(chunk);\n", "        self.buffer.extend_from_slice(chunk);\n"),
                (E, "        self.offsets.push(self.buffer.len());\n", "        let end = self.buffer.len();\n        debug_assert!(self.offsets.last().is_none_or(|last| *last <= end));\n        self.offsets.push(end);\n")]},
 ]
+
+# ---------------- round 6: the same meaning through other constructs ----------------
+_TERMCAP_LOOP = ("                for (index, cap) in caps.iter().enumerate() {\n                    if index != 0 {\n                        out.write_all(b\";\")?;\n"
+                 "                    }\n                    for b in cap.as_bytes() {\n                        write!(out, \"{:02x}\", b)?;\n                    }\n                }\n")
+
+
+def _termcap_chain(cond="index != 0", spec="{:02x}"):
+    return ("                caps.iter().enumerate().try_for_each(|(index, cap)| {\n                    (" + cond + ")\n"
+            "                        .then(|| out.write_all(b\";\"))\n                        .transpose()?;\n"
+            "                    cap.bytes().try_for_each(|b| write!(out, \"" + spec + "\", b))\n                })?;\n")
+
+
+_GRAY_MATCH = ("            let index = match nearest(luma, &[0.0, 0.33, 0.66, 1.0]) {\n                0 => 30,\n                1 => 90,\n"
+               "                2 => 37,\n                _ => 97,\n            };\n")
+_NEAREST_FN = "fn nearest(v: f32, vs: &[f32]) -> usize {\n"
+
+
+def _gray_consts(ty, offset):
+    return ("const GRAY_LEVELS: [f32; 4] = [0.0, 0.33, 0.66, 1.0];\nconst GRAY_SGR_FG: [" + ty + "; 4] = [30, 90, 37, 97];\n"
+            "const SGR_BG_OFFSET: " + ty + " = " + offset + ";\n\n" + _NEAREST_FN)
+
+
+_GRAY_TABLE_MATCH = ("            let level = nearest(luma, &GRAY_LEVELS);\n            debug_assert!(level < GRAY_LEVELS.len());\n"
+                     "            let index = match level {\n                0 => GRAY_SGR_FG[0],\n                1 => GRAY_SGR_FG[1],\n"
+                     "                2 => GRAY_SGR_FG[2],\n                _ => GRAY_SGR_FG[3],\n            };\n")
+MUTANTS += [
+    # separator of the enumerated loop asked with a literal pattern instead of a comparison
+    {"id": "C05-benign-drain-match-index-zero", "prop": "C05", "benign": True,
+     "edits": [(E, _DRAIN_LOOP, "        for (index, chunk) in self.iter().enumerate() {\n            match index {\n                0 => {}\n                _ => out.write_all(sep)?,\n            }\n            out.write_all(chunk)?\n        }\n")]},
+    {"id": "C05-benign-drain-if-let-zero", "prop": "C05", "benign": True,
+     "edits": [(E, _DRAIN_LOOP, "        for (index, chunk) in self.iter().enumerate() {\n            if let 0 = index {\n            } else {\n                out.write_all(sep)?;\n            }\n            out.write_all(chunk)?\n        }\n")]},
+    {"id": "C05-drain-match-index-separator-only-first", "prop": "C05", "expect": "TEMPLATE/Face",
+     "edits": [(E, _DRAIN_LOOP, "        for (index, chunk) in self.iter().enumerate() {\n            match index {\n                0 => out.write_all(sep)?,\n                _ => {}\n            }\n            out.write_all(chunk)?\n        }\n")]},
+    {"id": "C05-drain-match-index-one", "prop": "C05", "expect": "TEMPLATE/Face",
+     "edits": [(E, _DRAIN_LOOP, "        for (index, chunk) in self.iter().enumerate() {\n            match index {\n                1 => {}\n                _ => out.write_all(sep)?,\n            }\n            out.write_all(chunk)?\n        }\n")]},
+    # nested loops that write to the sink as try_for_each chains; the separator through bool::then(..).transpose()?
+    {"id": "C05-benign-termcap-try-for-each-then-transpose", "prop": "C05", "benign": True, "edits": [(E, _TERMCAP_LOOP, _termcap_chain())]},
+    {"id": "C05-termcap-try-for-each-separator-first-only", "prop": "C05", "expect": "TEMPLATE/Termcap",
+     "edits": [(E, _TERMCAP_LOOP, _termcap_chain(cond="index == 0"))]},
+    {"id": "C05-termcap-try-for-each-one-digit-hex", "prop": "C05", "expect": "TEMPLATE/Termcap",
+     "edits": [(E, _TERMCAP_LOOP, _termcap_chain(spec="{:x}"))]},
+    # Gray depth: codes from a named table picked arm by arm, offset as a named constant (usize arithmetic)
+    {"id": "C05-benign-gray-named-table-match", "prop": "C05", "benign": True,
+     "edits": [(E, _NEAREST_FN, _gray_consts("usize", "10")), (E, _GRAY_MATCH, _GRAY_TABLE_MATCH),
+               (E, "SGRColorType::Background => index + 10,", "SGRColorType::Background => index + SGR_BG_OFFSET,")]},
+    {"id": "C05-gray-named-table-u8-offset-overflows", "prop": "C05", "expect": "TOTAL/encoder::color_sgr_encode/OVF",
+     "edits": [(E, _NEAREST_FN, _gray_consts("u8", "200")), (E, _GRAY_MATCH, _GRAY_TABLE_MATCH),
+               (E, "SGRColorType::Background => index + 10,", "SGRColorType::Background => index + SGR_BG_OFFSET,")]},
+]
